@@ -867,8 +867,16 @@ def folder_reuse(args):
         r1 = run_once(rundir, truth, paths, dict(opts, ref_gz=True), sched=args.get("sched"), logname="first.log", outdir=out)
         res["first_exit"] = r1["exit"]
         write_gz(v2)
+        if args.get("old_gz"):
+            # the second reference file carries an OLDER time stamp than the unpacked copy the first run left behind
+            # (cp -p / rsync -t / an archive): time stamps say nothing about which reference the copy belongs to
+            st_ = os.stat(gzp)
+            os.utime(gzp, (st_.st_mtime - 500000.0, st_.st_mtime - 500000.0))
         r2 = run_once(rundir, truth, paths, dict(opts, ref_gz=True), sched=args.get("sched"), logname="stdout.log", outdir=out)
         f2, _ = outputs.collect(out, chroms)
+        second_oracles = None
+        if args.get("oracles"):
+            second_oracles = summarize(r2, rundir, truth, oracles=args["oracles"]).get("oracles")
         out3 = os.path.join(rundir, "out_fresh")
         r3 = run_once(rundir, truth, paths, dict(opts, ref_gz=False), sched=args.get("sched"), logname="fresh.log", outdir=out3,
                       home=os.path.join(rundir, "home_fresh"))
@@ -877,6 +885,7 @@ def folder_reuse(args):
                    events=r1["events"] + r2["events"] + r3["events"], trace_sha=simrun.trace_digest(r2["trace"]))
         if r2["exit"] != 0:
             res["second"]["log_tail"] = _log_tail(rundir)
+        res["second"]["oracles"] = second_oracles
         res["wall"] = time.time() - t0
         return res
     finally:
